@@ -1,2866 +1,2 @@
 #![allow(warnings)]
-// GENERATED by /verif/corpus/gen.py -- compiled under the analysis driver only, never executed
-pub mod prim {
-    #![allow(warnings)]
-    use savefile::prelude::*;
-    use savefile_derive::Savefile;
-    use arrayvec::ArrayVec;
-    use std::cell::Cell;
-    #[derive(Savefile)]
-    #[repr(C)]
-    pub struct P_u32_u16_u16_C {
-        pub a: u32,
-        pub b: u16,
-        pub c: u16,
-    }
-    #[derive(Savefile)]
-    #[repr(C)]
-    pub struct P_u8_u32_C {
-        pub a: u8,
-        pub b: u32,
-    }
-    #[derive(Savefile)]
-    #[repr(C)]
-    pub struct P_u32_u8_C {
-        pub a: u32,
-        pub b: u8,
-    }
-    #[derive(Savefile)]
-    #[repr(C)]
-    pub struct P_u64_u32_u32_C {
-        pub a: u64,
-        pub b: u32,
-        pub c: u32,
-    }
-    #[derive(Savefile)]
-    pub struct P_u32_u16_u16_Rust {
-        pub a: u32,
-        pub b: u16,
-        pub c: u16,
-    }
-    #[derive(Savefile)]
-    pub struct P_u16_u32_u16_Rust {
-        pub a: u16,
-        pub b: u32,
-        pub c: u16,
-    }
-    #[derive(Savefile)]
-    #[repr(C)]
-    pub struct P_u8x4_C {
-        pub a: u8,
-        pub b: u8,
-        pub c: u8,
-        pub d: u8,
-    }
-    #[derive(Savefile)]
-    #[repr(C)]
-    pub struct P_u128_u64_u64_C {
-        pub a: u128,
-        pub b: u64,
-        pub c: u64,
-    }
-    #[derive(Savefile)]
-    #[repr(C)]
-    pub struct P_f32_f32_C {
-        pub x: f32,
-        pub y: f32,
-    }
-    #[derive(Savefile)]
-    #[repr(C)]
-    pub struct P_f64_u32_C {
-        pub x: f64,
-        pub y: u32,
-    }
-    #[derive(Savefile)]
-    #[repr(C)]
-    pub struct P_i8_i8_i16_C {
-        pub a: i8,
-        pub b: i8,
-        pub c: i16,
-    }
-    #[derive(Savefile)]
-    #[repr(C)]
-    pub struct P_bool_u8_C {
-        pub a: bool,
-        pub b: u8,
-    }
-    #[derive(Savefile)]
-    #[repr(C)]
-    pub struct P_char_u32_C {
-        pub a: char,
-        pub b: u32,
-    }
-    #[derive(Savefile)]
-    #[repr(C)]
-    pub struct P_arr_C {
-        pub a: [u8; 4],
-        pub b: u32,
-    }
-    #[derive(Savefile)]
-    #[repr(C)]
-    pub struct P_arr16_C {
-        pub a: [u16; 3],
-        pub b: u16,
-    }
-    #[derive(Savefile)]
-    #[repr(C)]
-    pub struct P_string_C {
-        pub a: u32,
-        pub s: String,
-    }
-    #[derive(Savefile)]
-    #[repr(C)]
-    pub struct P_vec_C {
-        pub a: u64,
-        pub v: Vec<u32>,
-    }
-    #[derive(Savefile)]
-    #[repr(C)]
-    pub struct P_opt_C {
-        pub a: u32,
-        pub o: Option<u32>,
-    }
-    #[derive(Savefile)]
-    #[repr(C)]
-    pub struct P_box_C {
-        pub a: u64,
-        pub b: Box<u64>,
-    }
-    #[derive(Savefile)]
-    #[repr(C)]
-    pub struct P_single_C {
-        pub a: u64,
-    }
-    #[derive(Savefile)]
-    #[repr(transparent)]
-    pub struct P_transparent {
-        pub a: u32,
-    }
-    #[derive(Savefile)]
-    #[repr(C)]
-    pub struct P_usize_C {
-        pub a: usize,
-        pub b: isize,
-    }
-    #[derive(Savefile)]
-    #[repr(C)]
-    pub struct P_tuplefield_C {
-        pub a: (u32, u32),
-        pub b: u64,
-    }
-    #[derive(Savefile)]
-    #[repr(C)]
-    pub struct P_arrayvec_C {
-        pub a: ArrayVec<u32, 4>,
-    }
-    #[derive(Savefile)]
-    #[repr(C)]
-    pub struct P_ignore_C {
-        pub a: u32,
-        #[savefile_ignore]
-        pub skip: u32,
-        pub b: u32,
-    }
-    #[derive(Savefile)]
-    #[repr(C)]
-    pub struct P_mixed_regions_C {
-        pub a: u32,
-        pub b: u32,
-        pub s: String,
-        pub c: u16,
-        pub d: u16,
-    }
-    #[derive(Savefile)]
-    #[repr(C)]
-    pub struct T_u32_u32(pub u32, pub u32);
-    #[derive(Savefile)]
-    pub struct T_newtype(pub u64);
-    #[derive(Savefile)]
-    pub struct Unit;
-    #[derive(Savefile)]
-    #[repr(C)]
-    pub struct N_packed_in_packed {
-        pub a: P_u32_u16_u16_C,
-        pub b: u64,
-    }
-    #[derive(Savefile)]
-    #[repr(C)]
-    pub struct N_padded_in_packed {
-        pub a: P_u8_u32_C,
-        pub b: u64,
-    }
-    #[derive(Savefile)]
-    #[repr(C)]
-    pub struct N_rust_in_C {
-        pub a: P_u32_u16_u16_Rust,
-        pub b: u64,
-    }
-    #[derive(Savefile)]
-    #[repr(C)]
-    pub struct N_string_in_C {
-        pub a: P_string_C,
-        pub b: u64,
-    }
-    #[derive(Savefile)]
-    pub struct N_vec_of_packed {
-        pub v: Vec<P_u32_u16_u16_C>,
-        pub w: Vec<P_u8_u32_C>,
-        pub e: Vec<E_u8_unit>,
-        pub x: Vec<bool>,
-        pub y: [P_u8x4_C; 3],
-        pub z: Box<P_single_C>,
-    }
-    #[derive(Savefile)]
-    #[repr(C)]
-    pub struct N_enum_in_C {
-        pub e: E_u8_unit,
-        pub x: u8,
-    }
-    #[derive(Savefile)]
-    #[repr(C)]
-    pub struct N_enum_explicit_in_C {
-        pub e: E_u8_explicit_ne,
-        pub x: u8,
-    }
-    #[derive(Savefile)]
-    #[repr(C)]
-    pub struct G<T> {
-        pub a: T,
-        pub b: T,
-    }
-    #[derive(Savefile)]
-    #[repr(C)]
-    pub struct N_generic_inst {
-        pub g: G<u32>,
-        pub h: G<String>,
-    }
-    #[derive(Savefile)]
-    pub enum E_plain_unit {
-        A,
-        B,
-        C,
-    }
-    #[derive(Savefile)]
-    #[repr(u8)]
-    pub enum E_u8_unit {
-        A,
-        B,
-        C,
-    }
-    #[derive(Savefile)]
-    #[repr(u16)]
-    pub enum E_u16_unit {
-        A,
-        B,
-    }
-    #[derive(Savefile)]
-    #[repr(u32)]
-    pub enum E_u32_unit {
-        A,
-        B,
-    }
-    #[derive(Savefile)]
-    #[repr(u8)]
-    pub enum E_u8_explicit_eq {
-        A = 0,
-        B = 1,
-        C = 2,
-    }
-    #[derive(Savefile)]
-    #[repr(u8)]
-    pub enum E_u8_explicit_ne {
-        A = 5,
-        B = 7,
-    }
-    #[derive(Savefile)]
-    #[repr(u8)]
-    pub enum E_u8_fields {
-        A(u8),
-        B(u8),
-    }
-    #[derive(Savefile)]
-    #[repr(u8)]
-    pub enum E_u8_fields_pad {
-        A(u32),
-        B(u8),
-    }
-    #[derive(Savefile)]
-    #[repr(u8, C)]
-    pub enum E_u8C_fields {
-        A(u8, u16),
-        B(u8, u16),
-    }
-    #[derive(Savefile)]
-    #[repr(C)]
-    pub enum E_C_explicit_ne {
-        A = 2,
-        B = 5,
-    }
-    #[derive(Savefile)]
-    #[repr(u8, C)]
-    pub enum E_u8C_explicit_fields_ne {
-        A(u32) = 2,
-        B(u32) = 5,
-    }
-    #[derive(Savefile)]
-    #[repr(C)]
-    pub enum E_C_unit {
-        A,
-        B,
-    }
-    #[derive(Savefile)]
-    pub enum E_plain_mixed {
-        A,
-        B(u32, String),
-        C {
-            x: u8,
-            y: Vec<u8>,
-        },
-    }
-    #[derive(Savefile)]
-    #[repr(u16)]
-    pub enum E_u16_mixed {
-        A,
-        B(u64),
-    }
-    #[derive(Savefile)]
-    pub enum E_many {
-        V0,
-        V1,
-        V2,
-        V3,
-        V4,
-        V5,
-        V6,
-        V7,
-        V8,
-        V9,
-        V10,
-        V11,
-        V12,
-        V13,
-        V14,
-        V15,
-        V16,
-        V17,
-        V18,
-        V19,
-        V20,
-        V21,
-        V22,
-        V23,
-        V24,
-        V25,
-        V26,
-        V27,
-        V28,
-        V29,
-        V30,
-        V31,
-        V32,
-        V33,
-        V34,
-        V35,
-        V36,
-        V37,
-        V38,
-        V39,
-        V40,
-        V41,
-        V42,
-        V43,
-        V44,
-        V45,
-        V46,
-        V47,
-        V48,
-        V49,
-        V50,
-        V51,
-        V52,
-        V53,
-        V54,
-        V55,
-        V56,
-        V57,
-        V58,
-        V59,
-        V60,
-        V61,
-        V62,
-        V63,
-        V64,
-        V65,
-        V66,
-        V67,
-        V68,
-        V69,
-        V70,
-        V71,
-        V72,
-        V73,
-        V74,
-        V75,
-        V76,
-        V77,
-        V78,
-        V79,
-        V80,
-        V81,
-        V82,
-        V83,
-        V84,
-        V85,
-        V86,
-        V87,
-        V88,
-        V89,
-        V90,
-        V91,
-        V92,
-        V93,
-        V94,
-        V95,
-        V96,
-        V97,
-        V98,
-        V99,
-        V100,
-        V101,
-        V102,
-        V103,
-        V104,
-        V105,
-        V106,
-        V107,
-        V108,
-        V109,
-        V110,
-        V111,
-        V112,
-        V113,
-        V114,
-        V115,
-        V116,
-        V117,
-        V118,
-        V119,
-        V120,
-        V121,
-        V122,
-        V123,
-        V124,
-        V125,
-        V126,
-        V127,
-        V128,
-        V129,
-        V130,
-        V131,
-        V132,
-        V133,
-        V134,
-        V135,
-        V136,
-        V137,
-        V138,
-        V139,
-        V140,
-        V141,
-        V142,
-        V143,
-        V144,
-        V145,
-        V146,
-        V147,
-        V148,
-        V149,
-        V150,
-        V151,
-        V152,
-        V153,
-        V154,
-        V155,
-        V156,
-        V157,
-        V158,
-        V159,
-        V160,
-        V161,
-        V162,
-        V163,
-        V164,
-        V165,
-        V166,
-        V167,
-        V168,
-        V169,
-        V170,
-        V171,
-        V172,
-        V173,
-        V174,
-        V175,
-        V176,
-        V177,
-        V178,
-        V179,
-        V180,
-        V181,
-        V182,
-        V183,
-        V184,
-        V185,
-        V186,
-        V187,
-        V188,
-        V189,
-        V190,
-        V191,
-        V192,
-        V193,
-        V194,
-        V195,
-        V196,
-        V197,
-        V198,
-        V199,
-        V200,
-        V201,
-        V202,
-        V203,
-        V204,
-        V205,
-        V206,
-        V207,
-        V208,
-        V209,
-        V210,
-        V211,
-        V212,
-        V213,
-        V214,
-        V215,
-        V216,
-        V217,
-        V218,
-        V219,
-        V220,
-        V221,
-        V222,
-        V223,
-        V224,
-        V225,
-        V226,
-        V227,
-        V228,
-        V229,
-        V230,
-        V231,
-        V232,
-        V233,
-        V234,
-        V235,
-        V236,
-        V237,
-        V238,
-        V239,
-        V240,
-        V241,
-        V242,
-        V243,
-        V244,
-        V245,
-        V246,
-        V247,
-        V248,
-        V249,
-        V250,
-        V251,
-        V252,
-        V253,
-        V254,
-        V255,
-        V256,
-        V257,
-        V258,
-        V259,
-        V260,
-        V261,
-        V262,
-        V263,
-        V264,
-        V265,
-        V266,
-        V267,
-        V268,
-        V269,
-        V270,
-        V271,
-        V272,
-        V273,
-        V274,
-        V275,
-        V276,
-        V277,
-        V278,
-        V279,
-        V280,
-        V281,
-        V282,
-        V283,
-        V284,
-        V285,
-        V286,
-        V287,
-        V288,
-        V289,
-        V290,
-        V291,
-        V292,
-        V293,
-        V294,
-        V295,
-        V296,
-        V297,
-        V298,
-        V299,
-    }
-    #[derive(Savefile)]
-    pub enum E_versioned_fields {
-        A {
-            x: u32,
-            #[savefile_versions = "1.."]
-            y: u32,
-        },
-        B,
-        #[savefile_versions = "1.."]
-        C(u16),
-    }
-}
-pub mod evo {
-    #![allow(warnings)]
-    use savefile::prelude::*;
-    use savefile_derive::Savefile;
-    use arrayvec::ArrayVec;
-    use std::cell::Cell;
-    pub fn conv_u8_to_string(x: u8) -> String { x.to_string() }
-    pub fn conv_u16_to_u64(x: u16) -> u64 { x as u64 * 2 }
-    pub fn mk_default_u32() -> u32 { 77 }
-    pub fn mk_default_string() -> String { String::from("dflt") }
-    #[derive(Savefile)]
-    #[repr(C)]
-    pub struct Pk0_v0 {
-        pub a: u32,
-        pub b: u16,
-        pub c: u16,
-    }
-    #[derive(Savefile)]
-    #[repr(C)]
-    pub struct Pk0_v1 {
-        #[savefile_versions = "1.."]
-        pub n1: u32,
-        pub a: u32,
-        pub b: u16,
-        pub c: u16,
-    }
-    #[derive(Savefile)]
-    #[repr(C)]
-    pub struct Pk1_v0 {
-        pub a: u32,
-        pub b: u16,
-        pub c: u16,
-    }
-    #[derive(Savefile)]
-    #[repr(C)]
-    pub struct Pk1_v1 {
-        pub a: u32,
-        #[savefile_versions = "1.."]
-        pub n1: u32,
-        pub b: u16,
-        pub c: u16,
-    }
-    #[derive(Savefile)]
-    #[repr(C)]
-    pub struct Pk2_v0 {
-        pub a: u32,
-        pub b: u16,
-        pub c: u16,
-    }
-    #[derive(Savefile)]
-    #[repr(C)]
-    pub struct Pk2_v1 {
-        pub a: u32,
-        pub b: u16,
-        pub c: u16,
-        #[savefile_versions = "1.."]
-        pub n1: u32,
-    }
-    #[derive(Savefile)]
-    #[repr(C)]
-    pub struct Pk3_v0 {
-        pub a: u32,
-        pub b: u16,
-        pub c: u16,
-    }
-    #[derive(Savefile)]
-    #[repr(C)]
-    pub struct Pk3_v1 {
-        pub a: u32,
-        #[savefile_versions = "1.."]
-        #[savefile_default_val = "42"]
-        pub n1: u32,
-        pub b: u16,
-        pub c: u16,
-    }
-    #[derive(Savefile)]
-    #[repr(C)]
-    pub struct Pk4_v0 {
-        pub a: u32,
-        pub b: u16,
-        pub c: u16,
-    }
-    #[derive(Savefile)]
-    #[repr(C)]
-    pub struct Pk4_v1 {
-        pub a: u32,
-        pub b: u16,
-        pub c: u16,
-        #[savefile_versions = "1.."]
-        #[savefile_default_fn = "mk_default_u32"]
-        pub n1: u32,
-    }
-    #[derive(Savefile)]
-    #[repr(C)]
-    pub struct Pk5_v0 {
-        pub a: u32,
-        pub b: u16,
-        pub c: u16,
-    }
-    #[derive(Savefile)]
-    #[repr(C)]
-    pub struct Pk5_v1 {
-        pub a: u32,
-        #[savefile_versions = "1.."]
-        pub n1: String,
-        pub b: u16,
-        pub c: u16,
-    }
-    #[derive(Savefile)]
-    #[repr(C)]
-    pub struct Pk6_v0 {
-        pub a: u32,
-        pub b: u16,
-        pub c: u16,
-    }
-    #[derive(Savefile)]
-    #[repr(C)]
-    pub struct Pk6_v1 {
-        #[savefile_versions = "1.."]
-        #[savefile_default_fn = "mk_default_string"]
-        pub n1: String,
-        pub a: u32,
-        pub b: u16,
-        pub c: u16,
-    }
-    #[derive(Savefile)]
-    #[repr(C)]
-    pub struct Pk7_v0 {
-        pub a: u32,
-        pub b: u16,
-        pub c: u16,
-    }
-    #[derive(Savefile)]
-    #[repr(C)]
-    pub struct Pk7_v1 {
-        #[savefile_versions = "..0"]
-        pub a: Removed<u32>,
-        pub b: u16,
-        pub c: u16,
-    }
-    #[derive(Savefile)]
-    #[repr(C)]
-    pub struct Pk8_v0 {
-        pub a: u32,
-        pub b: u16,
-        pub c: u16,
-    }
-    #[derive(Savefile)]
-    #[repr(C)]
-    pub struct Pk8_v1 {
-        pub a: u32,
-        #[savefile_versions = "..0"]
-        pub b: Removed<u16>,
-        pub c: u16,
-    }
-    #[derive(Savefile)]
-    #[repr(C)]
-    pub struct Pk9_v0 {
-        pub a: u32,
-        pub b: u16,
-        pub c: u16,
-    }
-    #[derive(Savefile)]
-    #[repr(C)]
-    pub struct Pk9_v1 {
-        pub a: u32,
-        pub b: u16,
-        #[savefile_versions = "..0"]
-        pub c: Removed<u16>,
-    }
-    #[derive(Savefile)]
-    #[repr(C)]
-    pub struct Pk10_v0 {
-        pub a: u32,
-        pub b: u16,
-        pub c: u16,
-    }
-    #[derive(Savefile)]
-    #[repr(C)]
-    pub struct Pk10_v1 {
-        pub a: u32,
-        #[savefile_versions = "..0"]
-        pub b: AbiRemoved<u16>,
-        pub c: u16,
-    }
-    #[derive(Savefile)]
-    #[repr(C)]
-    pub struct Pk11_v0 {
-        pub a: u32,
-        pub b: u16,
-        pub c: u16,
-    }
-    #[derive(Savefile)]
-    #[repr(C)]
-    pub struct Pk11_v1 {
-        #[savefile_versions = "..0"]
-        pub a: AbiRemoved<u32>,
-        pub b: u16,
-        pub c: u16,
-    }
-    #[derive(Savefile)]
-    #[repr(C)]
-    pub struct Pk12_v0 {
-        pub a: u32,
-        pub b: u16,
-        pub c: u16,
-    }
-    #[derive(Savefile)]
-    #[repr(C)]
-    pub struct Pk12_v1 {
-        pub a: u32,
-        #[savefile_versions = "1.."]
-        #[savefile_versions_as = "0..0:conv_u16_to_u64:u16"]
-        pub b: u64,
-        pub c: u16,
-    }
-    #[derive(Savefile)]
-    #[repr(C)]
-    pub struct Pk13_v0 {
-        pub a: u32,
-        pub b: u16,
-        pub c: u16,
-    }
-    #[derive(Savefile)]
-    #[repr(C)]
-    pub struct Pk13_v1 {
-        #[savefile_versions = "1.."]
-        #[savefile_versions_as = "0..0:u32"]
-        pub a: u64,
-        pub b: u16,
-        pub c: u16,
-    }
-    #[derive(Savefile)]
-    #[repr(C)]
-    pub struct Pk14_v0 {
-        pub a: u32,
-        pub b: u16,
-        pub c: u16,
-    }
-    #[derive(Savefile)]
-    #[repr(C)]
-    pub struct Pk14_v1 {
-        pub a: u32,
-        pub b: u16,
-        pub c: u16,
-        #[savefile_versions = "1.."]
-        pub n1: u32,
-    }
-    #[derive(Savefile)]
-    #[repr(C)]
-    pub struct Pk14_v2 {
-        #[savefile_versions = "..1"]
-        pub a: Removed<u32>,
-        pub b: u16,
-        pub c: u16,
-        #[savefile_versions = "1.."]
-        pub n1: u32,
-    }
-    #[derive(Savefile)]
-    #[repr(C)]
-    pub struct Pk15_v0 {
-        pub a: u32,
-        pub b: u16,
-        pub c: u16,
-    }
-    #[derive(Savefile)]
-    #[repr(C)]
-    pub struct Pk15_v1 {
-        pub a: u32,
-        #[savefile_versions = "1.."]
-        #[savefile_versions_as = "0..0:conv_u16_to_u64:u16"]
-        pub b: u64,
-        pub c: u16,
-    }
-    #[derive(Savefile)]
-    #[repr(C)]
-    pub struct Pk15_v2 {
-        #[savefile_versions = "2.."]
-        pub n2: u32,
-        pub a: u32,
-        #[savefile_versions = "1.."]
-        #[savefile_versions_as = "0..0:conv_u16_to_u64:u16"]
-        pub b: u64,
-        pub c: u16,
-    }
-    #[derive(Savefile)]
-    #[repr(C)]
-    pub struct Pk16_v0 {
-        pub a: u32,
-        pub b: u16,
-        pub c: u16,
-    }
-    #[derive(Savefile)]
-    #[repr(C)]
-    pub struct Pk16_v1 {
-        pub a: u32,
-        #[savefile_versions = "1.."]
-        pub n1: String,
-        pub b: u16,
-        pub c: u16,
-    }
-    #[derive(Savefile)]
-    #[repr(C)]
-    pub struct Pk16_v2 {
-        pub a: u32,
-        #[savefile_versions = "1.."]
-        pub n1: String,
-        pub b: u16,
-        pub c: u16,
-        #[savefile_versions = "2.."]
-        #[savefile_default_fn = "mk_default_u32"]
-        pub n2: u32,
-    }
-    #[derive(Savefile)]
-    #[repr(C)]
-    pub struct Pk17_v0 {
-        pub a: u32,
-        pub b: u16,
-        pub c: u16,
-    }
-    #[derive(Savefile)]
-    #[repr(C)]
-    pub struct Pk17_v1 {
-        pub a: u32,
-        #[savefile_versions = "1.."]
-        #[savefile_versions_as = "0..0:conv_u16_to_u64:u16"]
-        pub b: u64,
-        pub c: u16,
-    }
-    #[derive(Savefile)]
-    #[repr(C)]
-    pub struct Pk17_v2 {
-        pub a: u32,
-        #[savefile_versions = "2.."]
-        #[savefile_default_val = "42"]
-        pub n2: u32,
-        #[savefile_versions = "1.."]
-        #[savefile_versions_as = "0..0:conv_u16_to_u64:u16"]
-        pub b: u64,
-        pub c: u16,
-    }
-    #[derive(Savefile)]
-    #[repr(C)]
-    pub struct Pk18_v0 {
-        pub a: u32,
-        pub b: u16,
-        pub c: u16,
-    }
-    #[derive(Savefile)]
-    #[repr(C)]
-    pub struct Pk18_v1 {
-        #[savefile_versions = "..0"]
-        pub a: AbiRemoved<u32>,
-        pub b: u16,
-        pub c: u16,
-    }
-    #[derive(Savefile)]
-    #[repr(C)]
-    pub struct Pk18_v2 {
-        #[savefile_versions = "..0"]
-        pub a: AbiRemoved<u32>,
-        #[savefile_versions = "..1"]
-        pub b: Removed<u16>,
-        pub c: u16,
-    }
-    #[derive(Savefile)]
-    #[repr(C)]
-    pub struct Pk19_v0 {
-        pub a: u32,
-        pub b: u16,
-        pub c: u16,
-    }
-    #[derive(Savefile)]
-    #[repr(C)]
-    pub struct Pk19_v1 {
-        #[savefile_versions = "1.."]
-        #[savefile_versions_as = "0..0:u32"]
-        pub a: u64,
-        pub b: u16,
-        pub c: u16,
-    }
-    #[derive(Savefile)]
-    #[repr(C)]
-    pub struct Pk19_v2 {
-        #[savefile_versions = "1.."]
-        #[savefile_versions_as = "0..0:u32"]
-        pub a: u64,
-        #[savefile_versions = "2.."]
-        #[savefile_default_val = "42"]
-        pub n2: u32,
-        pub b: u16,
-        pub c: u16,
-    }
-    #[derive(Savefile)]
-    #[repr(C)]
-    pub struct Pk20_v0 {
-        pub a: u32,
-        pub b: u16,
-        pub c: u16,
-    }
-    #[derive(Savefile)]
-    #[repr(C)]
-    pub struct Pk20_v1 {
-        #[savefile_versions = "..0"]
-        pub a: Removed<u32>,
-        pub b: u16,
-        pub c: u16,
-    }
-    #[derive(Savefile)]
-    #[repr(C)]
-    pub struct Pk20_v2 {
-        #[savefile_versions = "2.."]
-        #[savefile_default_fn = "mk_default_string"]
-        pub n2: String,
-        #[savefile_versions = "..0"]
-        pub a: Removed<u32>,
-        pub b: u16,
-        pub c: u16,
-    }
-    #[derive(Savefile)]
-    #[repr(C)]
-    pub struct Pk21_v0 {
-        pub a: u32,
-        pub b: u16,
-        pub c: u16,
-    }
-    #[derive(Savefile)]
-    #[repr(C)]
-    pub struct Pk21_v1 {
-        pub a: u32,
-        pub b: u16,
-        pub c: u16,
-        #[savefile_versions = "1.."]
-        pub n1: u32,
-    }
-    #[derive(Savefile)]
-    #[repr(C)]
-    pub struct Pk21_v2 {
-        pub a: u32,
-        #[savefile_versions = "2.."]
-        #[savefile_versions_as = "0..1:conv_u16_to_u64:u16"]
-        pub b: u64,
-        pub c: u16,
-        #[savefile_versions = "1.."]
-        pub n1: u32,
-    }
-    #[derive(Savefile)]
-    #[repr(C)]
-    pub struct Pk22_v0 {
-        pub a: u32,
-        pub b: u16,
-        pub c: u16,
-    }
-    #[derive(Savefile)]
-    #[repr(C)]
-    pub struct Pk22_v1 {
-        pub a: u32,
-        pub b: u16,
-        pub c: u16,
-        #[savefile_versions = "1.."]
-        pub n1: u32,
-    }
-    #[derive(Savefile)]
-    #[repr(C)]
-    pub struct Pk22_v2 {
-        #[savefile_versions = "..1"]
-        pub a: AbiRemoved<u32>,
-        pub b: u16,
-        pub c: u16,
-        #[savefile_versions = "1.."]
-        pub n1: u32,
-    }
-    #[derive(Savefile)]
-    #[repr(C)]
-    pub struct Pk23_v0 {
-        pub a: u32,
-        pub b: u16,
-        pub c: u16,
-    }
-    #[derive(Savefile)]
-    #[repr(C)]
-    pub struct Pk23_v1 {
-        pub a: u32,
-        pub b: u16,
-        pub c: u16,
-        #[savefile_versions = "1.."]
-        pub n1: u32,
-    }
-    #[derive(Savefile)]
-    #[repr(C)]
-    pub struct Pk23_v2 {
-        #[savefile_versions = "2.."]
-        pub n2: u32,
-        pub a: u32,
-        pub b: u16,
-        pub c: u16,
-        #[savefile_versions = "1.."]
-        pub n1: u32,
-    }
-    #[derive(Savefile)]
-    #[repr(C)]
-    pub struct Pk24_v0 {
-        pub a: u32,
-        pub b: u16,
-        pub c: u16,
-    }
-    #[derive(Savefile)]
-    #[repr(C)]
-    pub struct Pk24_v1 {
-        pub a: u32,
-        #[savefile_versions = "..0"]
-        pub b: AbiRemoved<u16>,
-        pub c: u16,
-    }
-    #[derive(Savefile)]
-    #[repr(C)]
-    pub struct Pk24_v2 {
-        #[savefile_versions = "..1"]
-        pub a: AbiRemoved<u32>,
-        #[savefile_versions = "..0"]
-        pub b: AbiRemoved<u16>,
-        pub c: u16,
-    }
-    #[derive(Savefile)]
-    #[repr(C)]
-    pub struct Pk25_v0 {
-        pub a: u32,
-        pub b: u16,
-        pub c: u16,
-    }
-    #[derive(Savefile)]
-    #[repr(C)]
-    pub struct Pk25_v1 {
-        pub a: u32,
-        #[savefile_versions = "1.."]
-        pub n1: String,
-        pub b: u16,
-        pub c: u16,
-    }
-    #[derive(Savefile)]
-    #[repr(C)]
-    pub struct Pk25_v2 {
-        #[savefile_versions = "2.."]
-        #[savefile_versions_as = "0..1:u32"]
-        pub a: u64,
-        #[savefile_versions = "1.."]
-        pub n1: String,
-        pub b: u16,
-        pub c: u16,
-    }
-    #[derive(Savefile)]
-    #[repr(C)]
-    pub struct Pk26_v0 {
-        pub a: u32,
-        pub b: u16,
-        pub c: u16,
-    }
-    #[derive(Savefile)]
-    #[repr(C)]
-    pub struct Pk26_v1 {
-        pub a: u32,
-        pub b: u16,
-        #[savefile_versions = "..0"]
-        pub c: Removed<u16>,
-    }
-    #[derive(Savefile)]
-    #[repr(C)]
-    pub struct Pk26_v2 {
-        #[savefile_versions = "2.."]
-        #[savefile_versions_as = "0..1:u32"]
-        pub a: u64,
-        pub b: u16,
-        #[savefile_versions = "..0"]
-        pub c: Removed<u16>,
-    }
-    #[derive(Savefile)]
-    #[repr(C)]
-    pub struct Pk27_v0 {
-        pub a: u32,
-        pub b: u16,
-        pub c: u16,
-    }
-    #[derive(Savefile)]
-    #[repr(C)]
-    pub struct Pk27_v1 {
-        #[savefile_versions = "1.."]
-        pub n1: u32,
-        pub a: u32,
-        pub b: u16,
-        pub c: u16,
-    }
-    #[derive(Savefile)]
-    #[repr(C)]
-    pub struct Pk27_v2 {
-        #[savefile_versions = "1.."]
-        pub n1: u32,
-        #[savefile_versions = "2.."]
-        pub n2: String,
-        pub a: u32,
-        pub b: u16,
-        pub c: u16,
-    }
-    #[derive(Savefile)]
-    #[repr(C)]
-    pub struct Pk28_v0 {
-        pub a: u32,
-        pub b: u16,
-        pub c: u16,
-    }
-    #[derive(Savefile)]
-    #[repr(C)]
-    pub struct Pk28_v1 {
-        pub a: u32,
-        #[savefile_versions = "..0"]
-        pub b: Removed<u16>,
-        pub c: u16,
-    }
-    #[derive(Savefile)]
-    #[repr(C)]
-    pub struct Pk28_v2 {
-        pub a: u32,
-        #[savefile_versions = "..0"]
-        pub b: Removed<u16>,
-        #[savefile_versions = "2.."]
-        #[savefile_versions_as = "0..1:conv_u16_to_u64:u16"]
-        pub c: u64,
-    }
-    #[derive(Savefile)]
-    #[repr(C)]
-    pub struct Pk29_v0 {
-        pub a: u32,
-        pub b: u16,
-        pub c: u16,
-    }
-    #[derive(Savefile)]
-    #[repr(C)]
-    pub struct Pk29_v1 {
-        pub a: u32,
-        pub b: u16,
-        #[savefile_versions = "..0"]
-        pub c: Removed<u16>,
-    }
-    #[derive(Savefile)]
-    #[repr(C)]
-    pub struct Pk29_v2 {
-        pub a: u32,
-        pub b: u16,
-        #[savefile_versions = "..0"]
-        pub c: Removed<u16>,
-        #[savefile_versions = "2.."]
-        pub n2: u32,
-    }
-    #[derive(Savefile)]
-    #[repr(C)]
-    pub struct Pk30_v0 {
-        pub a: u32,
-        pub b: u16,
-        pub c: u16,
-    }
-    #[derive(Savefile)]
-    #[repr(C)]
-    pub struct Pk30_v1 {
-        #[savefile_versions = "1.."]
-        pub n1: u32,
-        pub a: u32,
-        pub b: u16,
-        pub c: u16,
-    }
-    #[derive(Savefile)]
-    #[repr(C)]
-    pub struct Pk30_v2 {
-        #[savefile_versions = "1.."]
-        pub n1: u32,
-        #[savefile_versions = "2.."]
-        #[savefile_default_val = "42"]
-        pub n2: u32,
-        pub a: u32,
-        pub b: u16,
-        pub c: u16,
-    }
-    #[derive(Savefile)]
-    #[repr(C)]
-    pub struct Pk31_v0 {
-        pub a: u32,
-        pub b: u16,
-        pub c: u16,
-    }
-    #[derive(Savefile)]
-    #[repr(C)]
-    pub struct Pk31_v1 {
-        #[savefile_versions = "1.."]
-        #[savefile_default_fn = "mk_default_string"]
-        pub n1: String,
-        pub a: u32,
-        pub b: u16,
-        pub c: u16,
-    }
-    #[derive(Savefile)]
-    #[repr(C)]
-    pub struct Pk31_v2 {
-        #[savefile_versions = "1.."]
-        #[savefile_default_fn = "mk_default_string"]
-        pub n1: String,
-        pub a: u32,
-        #[savefile_versions = "..1"]
-        pub b: Removed<u16>,
-        pub c: u16,
-    }
-    #[derive(Savefile)]
-    #[repr(C)]
-    pub struct Pk32_v0 {
-        pub a: u32,
-        pub b: u16,
-        pub c: u16,
-    }
-    #[derive(Savefile)]
-    #[repr(C)]
-    pub struct Pk32_v1 {
-        pub a: u32,
-        pub b: u16,
-        pub c: u16,
-        #[savefile_versions = "1.."]
-        #[savefile_default_fn = "mk_default_u32"]
-        pub n1: u32,
-    }
-    #[derive(Savefile)]
-    #[repr(C)]
-    pub struct Pk32_v2 {
-        pub a: u32,
-        pub b: u16,
-        pub c: u16,
-        #[savefile_versions = "1.."]
-        #[savefile_default_fn = "mk_default_u32"]
-        pub n1: u32,
-        #[savefile_versions = "2.."]
-        #[savefile_default_fn = "mk_default_u32"]
-        pub n2: u32,
-    }
-    #[derive(Savefile)]
-    #[repr(C)]
-    pub struct Pk33_v0 {
-        pub a: u32,
-        pub b: u16,
-        pub c: u16,
-    }
-    #[derive(Savefile)]
-    #[repr(C)]
-    pub struct Pk33_v1 {
-        #[savefile_versions = "..0"]
-        pub a: Removed<u32>,
-        pub b: u16,
-        pub c: u16,
-    }
-    #[derive(Savefile)]
-    #[repr(C)]
-    pub struct Pk33_v2 {
-        #[savefile_versions = "..0"]
-        pub a: Removed<u32>,
-        #[savefile_versions = "2.."]
-        pub n2: u32,
-        pub b: u16,
-        pub c: u16,
-    }
-    #[derive(Savefile)]
-    #[repr(C)]
-    pub struct Pk34_v0 {
-        pub a: u32,
-        pub b: u16,
-        pub c: u16,
-    }
-    #[derive(Savefile)]
-    #[repr(C)]
-    pub struct Pk34_v1 {
-        #[savefile_versions = "1.."]
-        pub n1: u32,
-        pub a: u32,
-        pub b: u16,
-        pub c: u16,
-    }
-    #[derive(Savefile)]
-    #[repr(C)]
-    pub struct Pk34_v2 {
-        #[savefile_versions = "2.."]
-        #[savefile_versions_as = "1..1:u32"]
-        pub n1: u64,
-        pub a: u32,
-        pub b: u16,
-        pub c: u16,
-    }
-    #[derive(Savefile)]
-    #[repr(C)]
-    pub struct Pk35_v0 {
-        pub a: u32,
-        pub b: u16,
-        pub c: u16,
-    }
-    #[derive(Savefile)]
-    #[repr(C)]
-    pub struct Pk35_v1 {
-        pub a: u32,
-        pub b: u16,
-        pub c: u16,
-        #[savefile_versions = "1.."]
-        pub n1: u32,
-    }
-    #[derive(Savefile)]
-    #[repr(C)]
-    pub struct Pk35_v2 {
-        #[savefile_versions = "2.."]
-        #[savefile_default_fn = "mk_default_string"]
-        pub n2: String,
-        pub a: u32,
-        pub b: u16,
-        pub c: u16,
-        #[savefile_versions = "1.."]
-        pub n1: u32,
-    }
-    #[derive(Savefile)]
-    #[repr(C)]
-    pub struct Pk36_v0 {
-        pub a: u32,
-        pub b: u16,
-        pub c: u16,
-    }
-    #[derive(Savefile)]
-    #[repr(C)]
-    pub struct Pk36_v1 {
-        #[savefile_versions = "1.."]
-        #[savefile_versions_as = "0..0:u32"]
-        pub a: u64,
-        pub b: u16,
-        pub c: u16,
-    }
-    #[derive(Savefile)]
-    #[repr(C)]
-    pub struct Pk36_v2 {
-        #[savefile_versions = "1.."]
-        #[savefile_versions_as = "0..0:u32"]
-        pub a: u64,
-        pub b: u16,
-        pub c: u16,
-        #[savefile_versions = "2.."]
-        pub n2: u32,
-    }
-    #[derive(Savefile)]
-    #[repr(C)]
-    pub struct Pk37_v0 {
-        pub a: u32,
-        pub b: u16,
-        pub c: u16,
-    }
-    #[derive(Savefile)]
-    #[repr(C)]
-    pub struct Pk37_v1 {
-        pub a: u32,
-        #[savefile_versions = "1.."]
-        pub n1: u32,
-        pub b: u16,
-        pub c: u16,
-    }
-    #[derive(Savefile)]
-    #[repr(C)]
-    pub struct Pk37_v2 {
-        pub a: u32,
-        #[savefile_versions = "1..1"]
-        pub n1: AbiRemoved<u32>,
-        pub b: u16,
-        pub c: u16,
-    }
-    #[derive(Savefile)]
-    #[repr(C)]
-    pub struct Pk38_v0 {
-        pub a: u32,
-        pub b: u16,
-        pub c: u16,
-    }
-    #[derive(Savefile)]
-    #[repr(C)]
-    pub struct Pk38_v1 {
-        #[savefile_versions = "1.."]
-        #[savefile_versions_as = "0..0:u32"]
-        pub a: u64,
-        pub b: u16,
-        pub c: u16,
-    }
-    #[derive(Savefile)]
-    #[repr(C)]
-    pub struct Pk38_v2 {
-        #[savefile_versions = "1.."]
-        #[savefile_versions_as = "0..0:u32"]
-        pub a: u64,
-        #[savefile_versions = "2.."]
-        pub n2: u32,
-        pub b: u16,
-        pub c: u16,
-    }
-    #[derive(Savefile)]
-    #[repr(C)]
-    pub struct Pk39_v0 {
-        pub a: u32,
-        pub b: u16,
-        pub c: u16,
-    }
-    #[derive(Savefile)]
-    #[repr(C)]
-    pub struct Pk39_v1 {
-        pub a: u32,
-        #[savefile_versions = "1.."]
-        pub n1: u32,
-        pub b: u16,
-        pub c: u16,
-    }
-    #[derive(Savefile)]
-    #[repr(C)]
-    pub struct Pk39_v2 {
-        pub a: u32,
-        #[savefile_versions = "1.."]
-        pub n1: u32,
-        pub b: u16,
-        pub c: u16,
-        #[savefile_versions = "2.."]
-        pub n2: u32,
-    }
-    #[derive(Savefile)]
-    #[repr(C)]
-    pub struct Pk40_v0 {
-        pub a: u32,
-        pub b: u16,
-        pub c: u16,
-    }
-    #[derive(Savefile)]
-    #[repr(C)]
-    pub struct Pk40_v1 {
-        pub a: u32,
-        #[savefile_versions = "1.."]
-        pub n1: u32,
-        pub b: u16,
-        pub c: u16,
-    }
-    #[derive(Savefile)]
-    #[repr(C)]
-    pub struct Pk40_v2 {
-        pub a: u32,
-        #[savefile_versions = "2.."]
-        #[savefile_default_val = "42"]
-        pub n2: u32,
-        #[savefile_versions = "1.."]
-        pub n1: u32,
-        pub b: u16,
-        pub c: u16,
-    }
-    #[derive(Savefile)]
-    #[repr(C)]
-    pub struct Pk41_v0 {
-        pub a: u32,
-        pub b: u16,
-        pub c: u16,
-    }
-    #[derive(Savefile)]
-    #[repr(C)]
-    pub struct Pk41_v1 {
-        pub a: u32,
-        pub b: u16,
-        #[savefile_versions = "..0"]
-        pub c: Removed<u16>,
-    }
-    #[derive(Savefile)]
-    #[repr(C)]
-    pub struct Pk41_v2 {
-        pub a: u32,
-        #[savefile_versions = "2.."]
-        #[savefile_versions_as = "0..1:conv_u16_to_u64:u16"]
-        pub b: u64,
-        #[savefile_versions = "..0"]
-        pub c: Removed<u16>,
-    }
-    #[derive(Savefile)]
-    #[repr(C)]
-    pub struct Pk42_v0 {
-        pub a: u32,
-        pub b: u16,
-        pub c: u16,
-    }
-    #[derive(Savefile)]
-    #[repr(C)]
-    pub struct Pk42_v1 {
-        #[savefile_versions = "1.."]
-        pub n1: u32,
-        pub a: u32,
-        pub b: u16,
-        pub c: u16,
-    }
-    #[derive(Savefile)]
-    #[repr(C)]
-    pub struct Pk42_v2 {
-        #[savefile_versions = "1.."]
-        pub n1: u32,
-        pub a: u32,
-        #[savefile_versions = "..1"]
-        pub b: Removed<u16>,
-        pub c: u16,
-    }
-    #[derive(Savefile)]
-    #[repr(C)]
-    pub struct Pk43_v0 {
-        pub a: u32,
-        pub b: u16,
-        pub c: u16,
-    }
-    #[derive(Savefile)]
-    #[repr(C)]
-    pub struct Pk43_v1 {
-        pub a: u32,
-        pub b: u16,
-        #[savefile_versions = "..0"]
-        pub c: Removed<u16>,
-    }
-    #[derive(Savefile)]
-    #[repr(C)]
-    pub struct Pk43_v2 {
-        #[savefile_versions = "2.."]
-        pub n2: u32,
-        pub a: u32,
-        pub b: u16,
-        #[savefile_versions = "..0"]
-        pub c: Removed<u16>,
-    }
-    #[derive(Savefile)]
-    #[repr(C)]
-    pub struct Pk44_v0 {
-        pub a: u32,
-        pub b: u16,
-        pub c: u16,
-    }
-    #[derive(Savefile)]
-    #[repr(C)]
-    pub struct Pk44_v1 {
-        pub a: u32,
-        #[savefile_versions = "1.."]
-        pub n1: u32,
-        pub b: u16,
-        pub c: u16,
-    }
-    #[derive(Savefile)]
-    #[repr(C)]
-    pub struct Pk44_v2 {
-        #[savefile_versions = "2.."]
-        pub n2: u32,
-        pub a: u32,
-        #[savefile_versions = "1.."]
-        pub n1: u32,
-        pub b: u16,
-        pub c: u16,
-    }
-    #[derive(Savefile)]
-    #[repr(C)]
-    pub struct Pk45_v0 {
-        pub a: u32,
-        pub b: u16,
-        pub c: u16,
-    }
-    #[derive(Savefile)]
-    #[repr(C)]
-    pub struct Pk45_v1 {
-        pub a: u32,
-        #[savefile_versions = "..0"]
-        pub b: AbiRemoved<u16>,
-        pub c: u16,
-    }
-    #[derive(Savefile)]
-    #[repr(C)]
-    pub struct Pk45_v2 {
-        pub a: u32,
-        #[savefile_versions = "..0"]
-        pub b: AbiRemoved<u16>,
-        #[savefile_versions = "2.."]
-        #[savefile_versions_as = "0..1:conv_u16_to_u64:u16"]
-        pub c: u64,
-    }
-    #[derive(Savefile)]
-    #[repr(C)]
-    pub struct Pk46_v0 {
-        pub a: u32,
-        pub b: u16,
-        pub c: u16,
-    }
-    #[derive(Savefile)]
-    #[repr(C)]
-    pub struct Pk46_v1 {
-        #[savefile_versions = "1.."]
-        pub n1: u32,
-        pub a: u32,
-        pub b: u16,
-        pub c: u16,
-    }
-    #[derive(Savefile)]
-    #[repr(C)]
-    pub struct Pk46_v2 {
-        #[savefile_versions = "1.."]
-        pub n1: u32,
-        #[savefile_versions = "..1"]
-        pub a: Removed<u32>,
-        pub b: u16,
-        pub c: u16,
-    }
-    #[derive(Savefile)]
-    #[repr(C)]
-    pub struct Pk47_v0 {
-        pub a: u32,
-        pub b: u16,
-        pub c: u16,
-    }
-    #[derive(Savefile)]
-    #[repr(C)]
-    pub struct Pk47_v1 {
-        pub a: u32,
-        #[savefile_versions = "1.."]
-        #[savefile_versions_as = "0..0:conv_u16_to_u64:u16"]
-        pub b: u64,
-        pub c: u16,
-    }
-    #[derive(Savefile)]
-    #[repr(C)]
-    pub struct Pk47_v2 {
-        pub a: u32,
-        #[savefile_versions = "1.."]
-        #[savefile_versions_as = "0..0:conv_u16_to_u64:u16"]
-        pub b: u64,
-        pub c: u16,
-        #[savefile_versions = "2.."]
-        #[savefile_default_fn = "mk_default_u32"]
-        pub n2: u32,
-    }
-    #[derive(Savefile)]
-    #[repr(C)]
-    pub struct Pk48_v0 {
-        pub a: u32,
-        pub b: u16,
-        pub c: u16,
-    }
-    #[derive(Savefile)]
-    #[repr(C)]
-    pub struct Pk48_v1 {
-        pub a: u32,
-        #[savefile_versions = "1.."]
-        #[savefile_versions_as = "0..0:conv_u16_to_u64:u16"]
-        pub b: u64,
-        pub c: u16,
-    }
-    #[derive(Savefile)]
-    #[repr(C)]
-    pub struct Pk48_v2 {
-        #[savefile_versions = "2.."]
-        #[savefile_versions_as = "0..1:u32"]
-        pub a: u64,
-        #[savefile_versions = "1.."]
-        #[savefile_versions_as = "0..0:conv_u16_to_u64:u16"]
-        pub b: u64,
-        pub c: u16,
-    }
-    #[derive(Savefile)]
-    #[repr(C)]
-    pub struct Pk49_v0 {
-        pub a: u32,
-        pub b: u16,
-        pub c: u16,
-    }
-    #[derive(Savefile)]
-    #[repr(C)]
-    pub struct Pk49_v1 {
-        pub a: u32,
-        #[savefile_versions = "..0"]
-        pub b: AbiRemoved<u16>,
-        pub c: u16,
-    }
-    #[derive(Savefile)]
-    #[repr(C)]
-    pub struct Pk49_v2 {
-        #[savefile_versions = "2.."]
-        pub n2: u32,
-        pub a: u32,
-        #[savefile_versions = "..0"]
-        pub b: AbiRemoved<u16>,
-        pub c: u16,
-    }
-    #[derive(Savefile)]
-    #[repr(C)]
-    pub struct Pk50_v0 {
-        pub a: u32,
-        pub b: u16,
-        pub c: u16,
-    }
-    #[derive(Savefile)]
-    #[repr(C)]
-    pub struct Pk50_v1 {
-        #[savefile_versions = "1.."]
-        #[savefile_versions_as = "0..0:u32"]
-        pub a: u64,
-        pub b: u16,
-        pub c: u16,
-    }
-    #[derive(Savefile)]
-    #[repr(C)]
-    pub struct Pk50_v2 {
-        #[savefile_versions = "1.."]
-        #[savefile_versions_as = "0..0:u32"]
-        pub a: u64,
-        #[savefile_versions = "..1"]
-        pub b: Removed<u16>,
-        pub c: u16,
-    }
-    #[derive(Savefile)]
-    #[repr(C)]
-    pub struct Pk51_v0 {
-        pub a: u32,
-        pub b: u16,
-        pub c: u16,
-    }
-    #[derive(Savefile)]
-    #[repr(C)]
-    pub struct Pk51_v1 {
-        #[savefile_versions = "..0"]
-        pub a: Removed<u32>,
-        pub b: u16,
-        pub c: u16,
-    }
-    #[derive(Savefile)]
-    #[repr(C)]
-    pub struct Pk51_v2 {
-        #[savefile_versions = "..0"]
-        pub a: Removed<u32>,
-        #[savefile_versions = "2.."]
-        #[savefile_default_val = "42"]
-        pub n2: u32,
-        pub b: u16,
-        pub c: u16,
-    }
-    #[derive(Savefile)]
-    pub struct Np52_v0 {
-        pub a: u32,
-        pub s: String,
-        pub t: u64,
-    }
-    #[derive(Savefile)]
-    pub struct Np52_v1 {
-        #[savefile_versions = "1.."]
-        pub n1: u32,
-        pub a: u32,
-        pub s: String,
-        pub t: u64,
-    }
-    #[derive(Savefile)]
-    pub struct Np53_v0 {
-        pub a: u32,
-        pub s: String,
-        pub t: u64,
-    }
-    #[derive(Savefile)]
-    pub struct Np53_v1 {
-        pub a: u32,
-        #[savefile_versions = "1.."]
-        pub n1: u32,
-        pub s: String,
-        pub t: u64,
-    }
-    #[derive(Savefile)]
-    pub struct Np54_v0 {
-        pub a: u32,
-        pub s: String,
-        pub t: u64,
-    }
-    #[derive(Savefile)]
-    pub struct Np54_v1 {
-        pub a: u32,
-        pub s: String,
-        pub t: u64,
-        #[savefile_versions = "1.."]
-        pub n1: u32,
-    }
-    #[derive(Savefile)]
-    pub struct Np55_v0 {
-        pub a: u32,
-        pub s: String,
-        pub t: u64,
-    }
-    #[derive(Savefile)]
-    pub struct Np55_v1 {
-        pub a: u32,
-        #[savefile_versions = "1.."]
-        #[savefile_default_val = "42"]
-        pub n1: u32,
-        pub s: String,
-        pub t: u64,
-    }
-    #[derive(Savefile)]
-    pub struct Np56_v0 {
-        pub a: u32,
-        pub s: String,
-        pub t: u64,
-    }
-    #[derive(Savefile)]
-    pub struct Np56_v1 {
-        pub a: u32,
-        pub s: String,
-        pub t: u64,
-        #[savefile_versions = "1.."]
-        #[savefile_default_fn = "mk_default_u32"]
-        pub n1: u32,
-    }
-    #[derive(Savefile)]
-    pub struct Np57_v0 {
-        pub a: u32,
-        pub s: String,
-        pub t: u64,
-    }
-    #[derive(Savefile)]
-    pub struct Np57_v1 {
-        pub a: u32,
-        #[savefile_versions = "1.."]
-        pub n1: String,
-        pub s: String,
-        pub t: u64,
-    }
-    #[derive(Savefile)]
-    pub struct Np58_v0 {
-        pub a: u32,
-        pub s: String,
-        pub t: u64,
-    }
-    #[derive(Savefile)]
-    pub struct Np58_v1 {
-        #[savefile_versions = "1.."]
-        #[savefile_default_fn = "mk_default_string"]
-        pub n1: String,
-        pub a: u32,
-        pub s: String,
-        pub t: u64,
-    }
-    #[derive(Savefile)]
-    pub struct Np59_v0 {
-        pub a: u32,
-        pub s: String,
-        pub t: u64,
-    }
-    #[derive(Savefile)]
-    pub struct Np59_v1 {
-        #[savefile_versions = "..0"]
-        pub a: Removed<u32>,
-        pub s: String,
-        pub t: u64,
-    }
-    #[derive(Savefile)]
-    pub struct Np60_v0 {
-        pub a: u32,
-        pub s: String,
-        pub t: u64,
-    }
-    #[derive(Savefile)]
-    pub struct Np60_v1 {
-        pub a: u32,
-        #[savefile_versions = "..0"]
-        pub s: Removed<String>,
-        pub t: u64,
-    }
-    #[derive(Savefile)]
-    pub struct Np61_v0 {
-        pub a: u32,
-        pub s: String,
-        pub t: u64,
-    }
-    #[derive(Savefile)]
-    pub struct Np61_v1 {
-        pub a: u32,
-        pub s: String,
-        #[savefile_versions = "..0"]
-        pub t: Removed<u64>,
-    }
-    #[derive(Savefile)]
-    pub struct Np62_v0 {
-        pub a: u32,
-        pub s: String,
-        pub t: u64,
-    }
-    #[derive(Savefile)]
-    pub struct Np62_v1 {
-        pub a: u32,
-        #[savefile_versions = "..0"]
-        pub s: AbiRemoved<String>,
-        pub t: u64,
-    }
-    #[derive(Savefile)]
-    pub struct Np63_v0 {
-        pub a: u32,
-        pub s: String,
-        pub t: u64,
-    }
-    #[derive(Savefile)]
-    pub struct Np63_v1 {
-        #[savefile_versions = "..0"]
-        pub a: AbiRemoved<u32>,
-        pub s: String,
-        pub t: u64,
-    }
-    #[derive(Savefile)]
-    pub struct Np64_v0 {
-        pub a: u32,
-        pub s: String,
-        pub t: u64,
-    }
-    #[derive(Savefile)]
-    pub struct Np64_v1 {
-        #[savefile_versions = "1.."]
-        #[savefile_versions_as = "0..0:u32"]
-        pub a: u64,
-        pub s: String,
-        pub t: u64,
-    }
-    #[derive(Savefile)]
-    pub struct Np65_v0 {
-        pub a: u32,
-        pub s: String,
-        pub t: u64,
-    }
-    #[derive(Savefile)]
-    pub struct Np65_v1 {
-        pub a: u32,
-        pub s: String,
-        pub t: u64,
-        #[savefile_versions = "1.."]
-        pub n1: u32,
-    }
-    #[derive(Savefile)]
-    pub struct Np65_v2 {
-        #[savefile_versions = "..1"]
-        pub a: Removed<u32>,
-        pub s: String,
-        pub t: u64,
-        #[savefile_versions = "1.."]
-        pub n1: u32,
-    }
-    #[derive(Savefile)]
-    pub struct Np66_v0 {
-        pub a: u32,
-        pub s: String,
-        pub t: u64,
-    }
-    #[derive(Savefile)]
-    pub struct Np66_v1 {
-        pub a: u32,
-        #[savefile_versions = "1.."]
-        pub n1: String,
-        pub s: String,
-        pub t: u64,
-    }
-    #[derive(Savefile)]
-    pub struct Np66_v2 {
-        pub a: u32,
-        #[savefile_versions = "1.."]
-        pub n1: String,
-        pub s: String,
-        pub t: u64,
-        #[savefile_versions = "2.."]
-        #[savefile_default_fn = "mk_default_u32"]
-        pub n2: u32,
-    }
-    #[derive(Savefile)]
-    pub struct Np67_v0 {
-        pub a: u32,
-        pub s: String,
-        pub t: u64,
-    }
-    #[derive(Savefile)]
-    pub struct Np67_v1 {
-        #[savefile_versions = "..0"]
-        pub a: AbiRemoved<u32>,
-        pub s: String,
-        pub t: u64,
-    }
-    #[derive(Savefile)]
-    pub struct Np67_v2 {
-        #[savefile_versions = "..0"]
-        pub a: AbiRemoved<u32>,
-        #[savefile_versions = "..1"]
-        pub s: Removed<String>,
-        pub t: u64,
-    }
-    #[derive(Savefile)]
-    pub struct Np68_v0 {
-        pub a: u32,
-        pub s: String,
-        pub t: u64,
-    }
-    #[derive(Savefile)]
-    pub struct Np68_v1 {
-        #[savefile_versions = "1.."]
-        #[savefile_versions_as = "0..0:u32"]
-        pub a: u64,
-        pub s: String,
-        pub t: u64,
-    }
-    #[derive(Savefile)]
-    pub struct Np68_v2 {
-        #[savefile_versions = "1.."]
-        #[savefile_versions_as = "0..0:u32"]
-        pub a: u64,
-        #[savefile_versions = "2.."]
-        #[savefile_default_val = "42"]
-        pub n2: u32,
-        pub s: String,
-        pub t: u64,
-    }
-    #[derive(Savefile)]
-    pub struct Np69_v0 {
-        pub a: u32,
-        pub s: String,
-        pub t: u64,
-    }
-    #[derive(Savefile)]
-    pub struct Np69_v1 {
-        #[savefile_versions = "..0"]
-        pub a: Removed<u32>,
-        pub s: String,
-        pub t: u64,
-    }
-    #[derive(Savefile)]
-    pub struct Np69_v2 {
-        #[savefile_versions = "2.."]
-        #[savefile_default_fn = "mk_default_string"]
-        pub n2: String,
-        #[savefile_versions = "..0"]
-        pub a: Removed<u32>,
-        pub s: String,
-        pub t: u64,
-    }
-    #[derive(Savefile)]
-    pub struct Np70_v0 {
-        pub a: u32,
-        pub s: String,
-        pub t: u64,
-    }
-    #[derive(Savefile)]
-    pub struct Np70_v1 {
-        pub a: u32,
-        pub s: String,
-        pub t: u64,
-        #[savefile_versions = "1.."]
-        pub n1: u32,
-    }
-    #[derive(Savefile)]
-    pub struct Np70_v2 {
-        #[savefile_versions = "..1"]
-        pub a: AbiRemoved<u32>,
-        pub s: String,
-        pub t: u64,
-        #[savefile_versions = "1.."]
-        pub n1: u32,
-    }
-    #[derive(Savefile)]
-    pub struct Np71_v0 {
-        pub a: u32,
-        pub s: String,
-        pub t: u64,
-    }
-    #[derive(Savefile)]
-    pub struct Np71_v1 {
-        pub a: u32,
-        pub s: String,
-        pub t: u64,
-        #[savefile_versions = "1.."]
-        pub n1: u32,
-    }
-    #[derive(Savefile)]
-    pub struct Np71_v2 {
-        #[savefile_versions = "2.."]
-        pub n2: u32,
-        pub a: u32,
-        pub s: String,
-        pub t: u64,
-        #[savefile_versions = "1.."]
-        pub n1: u32,
-    }
-    #[derive(Savefile)]
-    pub struct Np72_v0 {
-        pub a: u32,
-        pub s: String,
-        pub t: u64,
-    }
-    #[derive(Savefile)]
-    pub struct Np72_v1 {
-        pub a: u32,
-        #[savefile_versions = "..0"]
-        pub s: AbiRemoved<String>,
-        pub t: u64,
-    }
-    #[derive(Savefile)]
-    pub struct Np72_v2 {
-        #[savefile_versions = "..1"]
-        pub a: AbiRemoved<u32>,
-        #[savefile_versions = "..0"]
-        pub s: AbiRemoved<String>,
-        pub t: u64,
-    }
-    #[derive(Savefile)]
-    pub struct Np73_v0 {
-        pub a: u32,
-        pub s: String,
-        pub t: u64,
-    }
-    #[derive(Savefile)]
-    pub struct Np73_v1 {
-        pub a: u32,
-        #[savefile_versions = "1.."]
-        pub n1: String,
-        pub s: String,
-        pub t: u64,
-    }
-    #[derive(Savefile)]
-    pub struct Np73_v2 {
-        #[savefile_versions = "2.."]
-        #[savefile_versions_as = "0..1:u32"]
-        pub a: u64,
-        #[savefile_versions = "1.."]
-        pub n1: String,
-        pub s: String,
-        pub t: u64,
-    }
-    #[derive(Savefile)]
-    pub struct Np74_v0 {
-        pub a: u32,
-        pub s: String,
-        pub t: u64,
-    }
-    #[derive(Savefile)]
-    pub struct Np74_v1 {
-        pub a: u32,
-        pub s: String,
-        #[savefile_versions = "..0"]
-        pub t: Removed<u64>,
-    }
-    #[derive(Savefile)]
-    pub struct Np74_v2 {
-        #[savefile_versions = "2.."]
-        #[savefile_versions_as = "0..1:u32"]
-        pub a: u64,
-        pub s: String,
-        #[savefile_versions = "..0"]
-        pub t: Removed<u64>,
-    }
-    #[derive(Savefile)]
-    pub struct Np75_v0 {
-        pub a: u32,
-        pub s: String,
-        pub t: u64,
-    }
-    #[derive(Savefile)]
-    pub struct Np75_v1 {
-        #[savefile_versions = "1.."]
-        pub n1: u32,
-        pub a: u32,
-        pub s: String,
-        pub t: u64,
-    }
-    #[derive(Savefile)]
-    pub struct Np75_v2 {
-        #[savefile_versions = "1.."]
-        pub n1: u32,
-        #[savefile_versions = "2.."]
-        pub n2: String,
-        pub a: u32,
-        pub s: String,
-        pub t: u64,
-    }
-    #[derive(Savefile)]
-    pub struct Np76_v0 {
-        pub a: u32,
-        pub s: String,
-        pub t: u64,
-    }
-    #[derive(Savefile)]
-    pub struct Np76_v1 {
-        pub a: u32,
-        pub s: String,
-        #[savefile_versions = "..0"]
-        pub t: Removed<u64>,
-    }
-    #[derive(Savefile)]
-    pub struct Np76_v2 {
-        pub a: u32,
-        pub s: String,
-        #[savefile_versions = "..0"]
-        pub t: Removed<u64>,
-        #[savefile_versions = "2.."]
-        pub n2: u32,
-    }
-    #[derive(Savefile)]
-    pub struct Np77_v0 {
-        pub a: u32,
-        pub s: String,
-        pub t: u64,
-    }
-    #[derive(Savefile)]
-    pub struct Np77_v1 {
-        #[savefile_versions = "1.."]
-        pub n1: u32,
-        pub a: u32,
-        pub s: String,
-        pub t: u64,
-    }
-    #[derive(Savefile)]
-    pub struct Np77_v2 {
-        #[savefile_versions = "1.."]
-        pub n1: u32,
-        #[savefile_versions = "2.."]
-        #[savefile_default_val = "42"]
-        pub n2: u32,
-        pub a: u32,
-        pub s: String,
-        pub t: u64,
-    }
-    #[derive(Savefile)]
-    pub struct Np78_v0 {
-        pub a: u32,
-        pub s: String,
-        pub t: u64,
-    }
-    #[derive(Savefile)]
-    pub struct Np78_v1 {
-        #[savefile_versions = "1.."]
-        #[savefile_default_fn = "mk_default_string"]
-        pub n1: String,
-        pub a: u32,
-        pub s: String,
-        pub t: u64,
-    }
-    #[derive(Savefile)]
-    pub struct Np78_v2 {
-        #[savefile_versions = "1.."]
-        #[savefile_default_fn = "mk_default_string"]
-        pub n1: String,
-        pub a: u32,
-        #[savefile_versions = "..1"]
-        pub s: Removed<String>,
-        pub t: u64,
-    }
-    #[derive(Savefile)]
-    pub struct Np79_v0 {
-        pub a: u32,
-        pub s: String,
-        pub t: u64,
-    }
-    #[derive(Savefile)]
-    pub struct Np79_v1 {
-        pub a: u32,
-        pub s: String,
-        pub t: u64,
-        #[savefile_versions = "1.."]
-        #[savefile_default_fn = "mk_default_u32"]
-        pub n1: u32,
-    }
-    #[derive(Savefile)]
-    pub struct Np79_v2 {
-        pub a: u32,
-        pub s: String,
-        pub t: u64,
-        #[savefile_versions = "1.."]
-        #[savefile_default_fn = "mk_default_u32"]
-        pub n1: u32,
-        #[savefile_versions = "2.."]
-        #[savefile_default_fn = "mk_default_u32"]
-        pub n2: u32,
-    }
-    #[derive(Savefile)]
-    pub struct Np80_v0 {
-        pub a: u32,
-        pub s: String,
-        pub t: u64,
-    }
-    #[derive(Savefile)]
-    pub struct Np80_v1 {
-        #[savefile_versions = "..0"]
-        pub a: Removed<u32>,
-        pub s: String,
-        pub t: u64,
-    }
-    #[derive(Savefile)]
-    pub struct Np80_v2 {
-        #[savefile_versions = "..0"]
-        pub a: Removed<u32>,
-        #[savefile_versions = "2.."]
-        pub n2: u32,
-        pub s: String,
-        pub t: u64,
-    }
-    #[derive(Savefile)]
-    pub struct Np81_v0 {
-        pub a: u32,
-        pub s: String,
-        pub t: u64,
-    }
-    #[derive(Savefile)]
-    pub struct Np81_v1 {
-        #[savefile_versions = "1.."]
-        pub n1: u32,
-        pub a: u32,
-        pub s: String,
-        pub t: u64,
-    }
-    #[derive(Savefile)]
-    pub struct Np81_v2 {
-        #[savefile_versions = "2.."]
-        #[savefile_versions_as = "1..1:u32"]
-        pub n1: u64,
-        pub a: u32,
-        pub s: String,
-        pub t: u64,
-    }
-    #[derive(Savefile)]
-    pub struct Np82_v0 {
-        pub a: u32,
-        pub s: String,
-        pub t: u64,
-    }
-    #[derive(Savefile)]
-    pub struct Np82_v1 {
-        pub a: u32,
-        pub s: String,
-        pub t: u64,
-        #[savefile_versions = "1.."]
-        pub n1: u32,
-    }
-    #[derive(Savefile)]
-    pub struct Np82_v2 {
-        #[savefile_versions = "2.."]
-        #[savefile_default_fn = "mk_default_string"]
-        pub n2: String,
-        pub a: u32,
-        pub s: String,
-        pub t: u64,
-        #[savefile_versions = "1.."]
-        pub n1: u32,
-    }
-    #[derive(Savefile)]
-    pub struct Np83_v0 {
-        pub a: u32,
-        pub s: String,
-        pub t: u64,
-    }
-    #[derive(Savefile)]
-    pub struct Np83_v1 {
-        #[savefile_versions = "1.."]
-        #[savefile_versions_as = "0..0:u32"]
-        pub a: u64,
-        pub s: String,
-        pub t: u64,
-    }
-    #[derive(Savefile)]
-    pub struct Np83_v2 {
-        #[savefile_versions = "1.."]
-        #[savefile_versions_as = "0..0:u32"]
-        pub a: u64,
-        pub s: String,
-        pub t: u64,
-        #[savefile_versions = "2.."]
-        pub n2: u32,
-    }
-    #[derive(Savefile)]
-    pub struct Np84_v0 {
-        pub a: u32,
-        pub s: String,
-        pub t: u64,
-    }
-    #[derive(Savefile)]
-    pub struct Np84_v1 {
-        pub a: u32,
-        #[savefile_versions = "1.."]
-        pub n1: u32,
-        pub s: String,
-        pub t: u64,
-    }
-    #[derive(Savefile)]
-    pub struct Np84_v2 {
-        pub a: u32,
-        #[savefile_versions = "1..1"]
-        pub n1: AbiRemoved<u32>,
-        pub s: String,
-        pub t: u64,
-    }
-    #[derive(Savefile)]
-    pub struct Np85_v0 {
-        pub a: u32,
-        pub s: String,
-        pub t: u64,
-    }
-    #[derive(Savefile)]
-    pub struct Np85_v1 {
-        #[savefile_versions = "1.."]
-        #[savefile_versions_as = "0..0:u32"]
-        pub a: u64,
-        pub s: String,
-        pub t: u64,
-    }
-    #[derive(Savefile)]
-    pub struct Np85_v2 {
-        #[savefile_versions = "1.."]
-        #[savefile_versions_as = "0..0:u32"]
-        pub a: u64,
-        #[savefile_versions = "2.."]
-        pub n2: u32,
-        pub s: String,
-        pub t: u64,
-    }
-    #[derive(Savefile)]
-    pub struct Np86_v0 {
-        pub a: u32,
-        pub s: String,
-        pub t: u64,
-    }
-    #[derive(Savefile)]
-    pub struct Np86_v1 {
-        pub a: u32,
-        #[savefile_versions = "1.."]
-        pub n1: u32,
-        pub s: String,
-        pub t: u64,
-    }
-    #[derive(Savefile)]
-    pub struct Np86_v2 {
-        pub a: u32,
-        #[savefile_versions = "1.."]
-        pub n1: u32,
-        pub s: String,
-        pub t: u64,
-        #[savefile_versions = "2.."]
-        pub n2: u32,
-    }
-    #[derive(Savefile)]
-    pub struct Np87_v0 {
-        pub a: u32,
-        pub s: String,
-        pub t: u64,
-    }
-    #[derive(Savefile)]
-    pub struct Np87_v1 {
-        pub a: u32,
-        #[savefile_versions = "1.."]
-        pub n1: u32,
-        pub s: String,
-        pub t: u64,
-    }
-    #[derive(Savefile)]
-    pub struct Np87_v2 {
-        pub a: u32,
-        #[savefile_versions = "2.."]
-        #[savefile_default_val = "42"]
-        pub n2: u32,
-        #[savefile_versions = "1.."]
-        pub n1: u32,
-        pub s: String,
-        pub t: u64,
-    }
-    #[derive(Savefile)]
-    pub struct Np88_v0 {
-        pub a: u32,
-        pub s: String,
-        pub t: u64,
-    }
-    #[derive(Savefile)]
-    pub struct Np88_v1 {
-        #[savefile_versions = "1.."]
-        pub n1: u32,
-        pub a: u32,
-        pub s: String,
-        pub t: u64,
-    }
-    #[derive(Savefile)]
-    pub struct Np88_v2 {
-        #[savefile_versions = "1.."]
-        pub n1: u32,
-        pub a: u32,
-        #[savefile_versions = "..1"]
-        pub s: Removed<String>,
-        pub t: u64,
-    }
-    #[derive(Savefile)]
-    pub struct Np89_v0 {
-        pub a: u32,
-        pub s: String,
-        pub t: u64,
-    }
-    #[derive(Savefile)]
-    pub struct Np89_v1 {
-        pub a: u32,
-        pub s: String,
-        #[savefile_versions = "..0"]
-        pub t: Removed<u64>,
-    }
-    #[derive(Savefile)]
-    pub struct Np89_v2 {
-        #[savefile_versions = "2.."]
-        pub n2: u32,
-        pub a: u32,
-        pub s: String,
-        #[savefile_versions = "..0"]
-        pub t: Removed<u64>,
-    }
-    #[derive(Savefile)]
-    pub struct Np90_v0 {
-        pub a: u32,
-        pub s: String,
-        pub t: u64,
-    }
-    #[derive(Savefile)]
-    pub struct Np90_v1 {
-        pub a: u32,
-        #[savefile_versions = "1.."]
-        pub n1: u32,
-        pub s: String,
-        pub t: u64,
-    }
-    #[derive(Savefile)]
-    pub struct Np90_v2 {
-        #[savefile_versions = "2.."]
-        pub n2: u32,
-        pub a: u32,
-        #[savefile_versions = "1.."]
-        pub n1: u32,
-        pub s: String,
-        pub t: u64,
-    }
-    #[derive(Savefile)]
-    pub struct Np91_v0 {
-        pub a: u32,
-        pub s: String,
-        pub t: u64,
-    }
-    #[derive(Savefile)]
-    pub struct Np91_v1 {
-        #[savefile_versions = "1.."]
-        pub n1: u32,
-        pub a: u32,
-        pub s: String,
-        pub t: u64,
-    }
-    #[derive(Savefile)]
-    pub struct Np91_v2 {
-        #[savefile_versions = "1.."]
-        pub n1: u32,
-        #[savefile_versions = "..1"]
-        pub a: Removed<u32>,
-        pub s: String,
-        pub t: u64,
-    }
-    #[derive(Savefile)]
-    pub struct Np92_v0 {
-        pub a: u32,
-        pub s: String,
-        pub t: u64,
-    }
-    #[derive(Savefile)]
-    pub struct Np92_v1 {
-        pub a: u32,
-        #[savefile_versions = "..0"]
-        pub s: AbiRemoved<String>,
-        pub t: u64,
-    }
-    #[derive(Savefile)]
-    pub struct Np92_v2 {
-        #[savefile_versions = "2.."]
-        pub n2: u32,
-        pub a: u32,
-        #[savefile_versions = "..0"]
-        pub s: AbiRemoved<String>,
-        pub t: u64,
-    }
-    #[derive(Savefile)]
-    pub struct Np93_v0 {
-        pub a: u32,
-        pub s: String,
-        pub t: u64,
-    }
-    #[derive(Savefile)]
-    pub struct Np93_v1 {
-        #[savefile_versions = "1.."]
-        #[savefile_versions_as = "0..0:u32"]
-        pub a: u64,
-        pub s: String,
-        pub t: u64,
-    }
-    #[derive(Savefile)]
-    pub struct Np93_v2 {
-        #[savefile_versions = "1.."]
-        #[savefile_versions_as = "0..0:u32"]
-        pub a: u64,
-        #[savefile_versions = "..1"]
-        pub s: Removed<String>,
-        pub t: u64,
-    }
-    #[derive(Savefile)]
-    pub struct Np94_v0 {
-        pub a: u32,
-        pub s: String,
-        pub t: u64,
-    }
-    #[derive(Savefile)]
-    pub struct Np94_v1 {
-        #[savefile_versions = "..0"]
-        pub a: Removed<u32>,
-        pub s: String,
-        pub t: u64,
-    }
-    #[derive(Savefile)]
-    pub struct Np94_v2 {
-        #[savefile_versions = "..0"]
-        pub a: Removed<u32>,
-        #[savefile_versions = "2.."]
-        #[savefile_default_val = "42"]
-        pub n2: u32,
-        pub s: String,
-        pub t: u64,
-    }
-    #[derive(Savefile)]
-    pub enum EnumEvo_v0 {
-        A,
-        B(u32),
-    }
-    #[derive(Savefile)]
-    pub enum EnumEvo_v1 {
-        A,
-        B(u32),
-        #[savefile_versions = "1.."]
-        C(String),
-    }
-    #[derive(Savefile)]
-    pub enum EnumEvo_v2 {
-        A,
-        B(u32),
-        #[savefile_versions = "1.."]
-        C(String),
-        #[savefile_versions = "2.."]
-        D,
-    }
-}
-// ---- ABI family (hand-enumerated, static part of the corpus): every supported argument kind, 0..3 arguments,
-// ---- interface families at versions 0,1,2.  Only compiled under the analysis driver.
-pub mod abi {
-    #![allow(warnings)]
-    use savefile::prelude::*;
-    use savefile_derive::{savefile_abi_exportable, Savefile};
-    use savefile_abi::{AbiConnection, AbiExportable};
-    use std::future::Future;
-    use std::pin::Pin;
-
-    #[derive(Savefile, Clone)]
-    #[repr(C)]
-    pub struct PackedArg { pub a: u32, pub b: u32 }
-
-    #[derive(Savefile, Clone)]
-    pub struct PlainArg { pub a: u32, pub s: String }
-
-    #[derive(Savefile, Clone)]
-    pub struct VerArg {
-        pub a: u32,
-        #[savefile_versions = "1.."]
-        pub b: u32,
-        #[savefile_versions = "2.."]
-        pub c: String,
-    }
-
-    #[savefile_abi_exportable(version = 0)]
-    pub trait Callback {
-        fn set(&mut self, x: u32);
-        fn get(&self) -> u32;
-    }
-
-    #[savefile_abi_exportable(version = 0)]
-    pub trait Kinds0 {
-        fn no_args(&self);
-        fn one_val(&self, a: u32) -> u32;
-        fn two_val(&self, a: u32, b: String) -> String;
-        fn three_val(&mut self, a: u64, b: PlainArg, c: Vec<u8>) -> Vec<u32>;
-        fn by_ref_packed(&self, a: &PackedArg) -> u32;
-        fn by_ref_plain(&self, a: &PlainArg) -> u32;
-        fn by_ref_prim(&self, a: &u32, b: &String) -> usize;
-        fn str_arg(&self, s: &str) -> usize;
-        fn slice_arg(&self, s: &[u32], t: &[String]) -> Vec<u32>;
-        fn result_ret(&self, a: u32) -> Result<u32, String>;
-        fn option_ret(&self, a: Option<u32>) -> Option<String>;
-        fn boxed_trait_arg(&self, cb: Box<dyn Callback>) -> u32;
-        fn borrowed_trait_arg(&self, cb: &dyn Callback) -> u32;
-        fn mut_trait_arg(&mut self, cb: &mut dyn Callback);
-        fn fn_arg(&self, f: &dyn Fn(u32) -> u32) -> u32;
-        fn fnmut_arg(&self, f: &mut dyn FnMut(u32, String)) ;
-        fn boxed_fn_arg(&self, f: Box<dyn Fn(u32) -> u32>) -> u32;
-        fn ret_boxed_trait(&self) -> Box<dyn Callback>;
-        fn ret_boxed_fn(&self) -> Box<dyn Fn(u32) -> u32>;
-        fn tuple_args(&self, a: (u32, u32), b: (u8,)) -> (u32, u32, u32);
-        fn unit_arg(&self, z: ());
-        fn static_str(&self) -> &'static str;
-    }
-
-    #[savefile_abi_exportable(version = 0)]
-    pub trait FutIface {
-        fn fut(&self, a: u32) -> Pin<Box<dyn Future<Output = u32>>>;
-        fn fut_send(&self, a: String) -> Pin<Box<dyn Future<Output = String> + Send>>;
-    }
-
-    // interface family at versions 0, 1, 2 (documented evolution: versioned argument types, added methods)
-    #[savefile_abi_exportable(version = 0)]
-    pub trait Fam_v0 {
-        fn f(&self, a: VerArg) -> VerArg;
-        fn g(&self, a: &VerArg) -> u32;
-    }
-    #[savefile_abi_exportable(version = 1)]
-    pub trait Fam_v1 {
-        fn f(&self, a: VerArg) -> VerArg;
-        fn g(&self, a: &VerArg) -> u32;
-        fn h(&self, x: u32) -> Result<VerArg, String>;
-    }
-    #[savefile_abi_exportable(version = 2)]
-    pub trait Fam_v2 {
-        fn f(&self, a: VerArg) -> VerArg;
-        fn g(&self, a: &VerArg) -> u32;
-        fn h(&self, x: u32) -> Result<VerArg, String>;
-        fn i(&self, cb: &dyn Fn(VerArg) -> VerArg) -> VerArg;
-    }
-}
+// corpus failed to build; see corpus_build_error.txt
